@@ -73,7 +73,7 @@ class Sym:
         cancellation); which one is decided by the solver, and the equality is recorded as an obligation."""
         for key, (arg, e) in self.tr.exp_syms.items():
             s = z3.Solver()
-            s.set('timeout', 5000)
+            s.set('timeout', 1500)
             for f in self.tr.facts:
                 s.add(f)
             s.add(self.t != e)
